@@ -6,15 +6,22 @@ import subprocess, os, sys, shutil, tempfile, glob
 area=sys.argv[1]; wt=sys.argv[2] if len(sys.argv)>2 else '/tmp/rf-'+area
 ENV=dict(os.environ, GOFLAGS='-mod=mod', GOPROXY='off', GOSUMDB='off', GOTOOLCHAIN='local', GOWORK='off')
 os.makedirs('/verif/selftest/refactors/_all',exist_ok=True)
-for f in sorted(glob.glob(wt+'/refactor*.diff')):
-    n=os.path.basename(f)[8:-5]
+pat=sys.argv[3] if len(sys.argv)>3 else 'refactor'
+for f in sorted(glob.glob(wt+'/'+pat+'*.diff')):
+    n=os.path.basename(f)[len(pat):-5]
     d=tempfile.mkdtemp(prefix='rf.',dir='/var/tmp')
     try:
         subprocess.run(['rsync','-a','--exclude','.git','/repo/',d+'/'],check=True)
         a=subprocess.run(['git','apply','--whitespace=nowarn',f],cwd=d,capture_output=True,text=True)
+        oldbase=False
         if a.returncode!=0:
             a=subprocess.run('patch -p1 -s < '+f,cwd=d,shell=True,capture_output=True,text=True)
-            if a.returncode!=0: print(area,n,'does not apply'); continue
+            if a.returncode!=0:
+                # written against the tree before the latest fix: evaluate it there (the open finding of that tree is ignored)
+                shutil.rmtree(d); os.makedirs(d)
+                subprocess.run('git -C /repo archive b140a7a | tar -x -C '+d,shell=True,check=True)
+                oldbase=True
+                if subprocess.run(['git','apply','--whitespace=nowarn',f],cwd=d,capture_output=True).returncode!=0: print(area,n,'does not apply'); continue
         if subprocess.run(['go','build','./...'],cwd=d,env=ENV,capture_output=True).returncode!=0: print(area,n,'does not build'); continue
         ok=False
         for _ in range(3):
@@ -25,7 +32,8 @@ for f in sorted(glob.glob(wt+'/refactor*.diff')):
             p='C%02d'%i
             r=subprocess.run(['/verif/bin/limecheck','-root',d,'-property',p,'-evidence','none'],capture_output=True,text=True)
             if r.returncode!=0:
-                first=[l for l in r.stdout.split('\n') if ': C' in l and 'KNOWN' not in l][:2]
+                first=[l for l in r.stdout.split('\n') if ': C' in l and 'KNOWN' not in l and not (oldbase and 'C15.D Transport.SetEncryption' in l)][:2]
+                if oldbase and not first: continue
                 alarms.append((p,[x.replace(d+'/','')[:230] for x in first] or [r.stderr[:200]]))
         if alarms:
             print(area,n,'ALARM')
@@ -34,6 +42,6 @@ for f in sorted(glob.glob(wt+'/refactor*.diff')):
             shutil.copy(f,f'/verif/selftest/refactors/_pending_{area}-{n}.diff')
         else:
             print(area,n,'silent')
-            shutil.copy(f,f'/verif/selftest/refactors/_all/{area}-{n}.diff')
+            if not oldbase: shutil.copy(f,f'/verif/selftest/refactors/_all/{area}-{n}.diff')
     finally:
         shutil.rmtree(d,ignore_errors=True)
